@@ -44,6 +44,13 @@ def eval (rs : Roles) : List String → Option String
     let (ro, _) ← rs.get role
     let s ← textOf h
     if s.any (fun c => c.toNat ≥ 128) then some "unspecified" else some (showR (parse ro s))
+  | ["addr-set", role, _prev, h] => do   -- Set: the parser, then the role's IsValid (controller and listen: port ≠ 0)
+    let (ro, _) ← rs.get role
+    let s ← textOf h
+    if s.any (fun c => c.toNat ≥ 128) then some "unspecified" else
+    some (showR (match parse ro s with
+      | .ok (a, b, c, d, p) => if (role = "controller" ∨ role = "listen") ∧ p = 0 then .err else .ok (a, b, c, d, p)
+      | x => x))
   | ["addr-format", role, a, b, c, d, p] => do
     let (_, om) ← rs.get role
     let [a, b, c, d, p] ← [a, b, c, d, p].mapM String.toNat? | none
